@@ -7,6 +7,13 @@ from paths import *
 ESCAPE_ALPHABET = set("abfnrtv\\\"'\n\rxzu") | set("0123456789")
 
 
+# calls that may take part in building the text of a Number token: copies of the text and String concatenation
+NUMBER_CALLS = re.compile(r"(ToString>?::to_string|to_owned|String as std::ops::Add<&str>>::add|From<&str>>::from|as_str|"
+                          r"<impl str>::get(::<.*>)?|Option::<.*>::expect|Option::<T>::expect|Into<.*>>::into|Deref>::deref|"
+                          r"String::push_str|String::push|Borrow<.*>>::borrow|AsRef<.*>>::as_ref|Clone>::clone|"
+                          r"From<std::string::String>>::from|Token::token_type)$")
+
+
 class RegexError(Exception):
     pass
 
@@ -171,6 +178,88 @@ def _newline_chain(f, operand):
     return False
 
 
+def _regex_static(f, o):
+    """name of the lazy_static regex an operand denotes"""
+    for r in provenance(f, o):
+        if r[0] == "const" and r[1].startswith("static:"):
+            return r[1].split("::")[-1]
+    return None
+
+
+def _char_table(h):
+    """h: fn(&str) -> bool deciding on the first char by matching constants / is_ascii_digit. Returns a function
+    ch -> set of possible results, or None when the shape is not understood."""
+    try:
+        res = Enumerator(h, summaries=False, max_paths=2000).run()
+    except TooManyPaths:
+        return None
+    rows = []
+    for st in res:
+        v0 = st.vals.get(0)
+        if not (v0 and v0[0] == "const" and isinstance(v0[1], bool)):
+            return None
+        cons = [v for k, v in st.disc.items() if k.startswith("int:")]
+        digit = None
+        for cb, dec in st.decisions.items():
+            c = callee(h.blocks[cb]["term"])
+            if c.endswith("is_ascii_digit"):
+                digit = dec
+            else:
+                return None
+        empty = any(v == "None" for k, v in st.disc.items() if k.startswith("call:"))
+        rows.append((cons, digit, empty, v0[1]))
+
+    def table(ch):
+        outs = set()
+        for cons, digit, empty, val in rows:
+            if empty:
+                continue
+            ok = True
+            for c in cons:
+                if c[0] == "int" and c[1] != ord(ch):
+                    ok = False
+                if c[0] == "notint" and ord(ch) in c[1]:
+                    ok = False
+            if digit is not None and digit != (ch in "0123456789"):
+                ok = False
+            if ok:
+                outs.add(val)
+        return outs
+    return table
+
+
+def _escape_predicate(rep, prog, pats, pred, cfg):
+    """(label, ch -> set of predicate results, location) for the closure's escape predicate"""
+    kind, name = pred
+    if kind == "regex":
+        if not rep.anchor(name in pats, f"pattern of regex {name}", cfg):
+            return None
+        pat, pf = pats[name]
+        try:
+            alts = parse_alternatives(pat)
+            ok_shape = len(alts) == 1 and [t[0] for t in alts[0]] == ["anchor", "class", "anchor"]
+        except RegexError as e:
+            ok_shape = False
+            rep.note(f"regex parse error: {e}")
+        rep.inst(f"stylua_lib {name} shape ^[..]$", {"pattern": pat}, cfg, ok=ok_shape)
+        if not ok_shape:
+            rep.violation(f"stylua_lib::formatters::general::format_token::{name} shape",
+                          f"{name} = {pat!r} is not a single anchored character class: the set of escapes that may be "
+                          f"dropped cannot be established (fail closed)", pf.loc(), cfg)
+            return None
+        _, neg, chars, hasS, hass = alts[0][1]
+
+        def table(ch):
+            inside = ch in chars or (hass and ch.isspace()) or (hasS and not ch.isspace())
+            return {inside != neg}
+        return f"{name} = {pat!r}", table, pf.loc()
+    h = prog.fn("stylua_lib", name)
+    table = _char_table(h)
+    if not rep.anchor(table is not None, f"escape predicate {name} is a match on the first character", cfg):
+        return None
+    return f"{h.path}", table, h.loc()
+
+
 def rule_regex(ctx, prop):
     rep = Report(prop, "R-REGEX", "escape rewriting: regex shapes, escape alphabet, replacement table; bracket strings "
                                   "and numbers are otherwise untouched")
@@ -181,36 +270,24 @@ def rule_regex(ctx, prop):
             m = re.search(r"format_token::(\w+) as std::ops::Deref", f.path)
             if m and len(lits) == 1:
                 pats[m.group(1)] = (lits[0], f)
-        if not rep.anchor({"RE", "UNNECESSARY_ESCAPES"} <= set(pats), f"regex constants of format_token ({sorted(pats)})", cfg):
+        ft = prog.fn("stylua_lib", "formatters::general::format_token")
+        if not rep.anchor(ft is not None, "format_token", cfg):
             continue
-        # --- UNNECESSARY_ESCAPES: ^[^ ... ]$ with excluded set >= escape alphabet
-        pat, pf = pats["UNNECESSARY_ESCAPES"]
-        try:
-            alts = parse_alternatives(pat)
-            ok_shape = len(alts) == 1 and [t[0] for t in alts[0]] == ["anchor", "class", "anchor"] and alts[0][1][1] is True
-            excluded = set(alts[0][1][2]) if ok_shape else set()
-            if ok_shape and (alts[0][1][3] or alts[0][1][4]):
-                ok_shape = ok_shape  # \s / \S inside an exclusion only exclude more
-        except RegexError as e:
-            ok_shape = False
-            excluded = set()
-            rep.note(f"regex parse error: {e}")
-        rep.inst("stylua_lib UNNECESSARY_ESCAPES shape ^[^..]$", {"pattern": pat}, cfg, ok=ok_shape)
-        if not ok_shape:
-            rep.violation("stylua_lib::formatters::general::format_token::UNNECESSARY_ESCAPES shape",
-                          f"UNNECESSARY_ESCAPES = {pat!r} is not a single anchored negated class: the set of escapes that "
-                          f"may be dropped cannot be established (fail closed)", pf.loc(), cfg)
-        else:
-            missing = sorted(ESCAPE_ALPHABET - excluded)
-            rep.inst("stylua_lib UNNECESSARY_ESCAPES excludes the escape alphabet",
-                     {"excluded": "".join(sorted(excluded)).encode("unicode_escape").decode()}, cfg, ok=not missing)
-            for ch in missing:
-                rep.violation(f"stylua_lib::formatters::general::format_token::UNNECESSARY_ESCAPES missing={ch.encode('unicode_escape').decode()}",
-                              f"the escape `\\{ch.encode('unicode_escape').decode()}` is meaningful in a supported "
-                              f"dialect but is not excluded from UNNECESSARY_ESCAPES = {pat!r}: the backslash is dropped "
-                              f"and the string denotes a different value", pf.loc(), cfg)
+        # the tokenising regex is the receiver of the Regex::replace_all call; its third argument is the replacement closure
+        ra = [(b, t) for b, t in ft.calls() if callee(t).endswith("Regex::replace_all")]
+        if not rep.anchor(len(ra) == 1, f"one Regex::replace_all call in format_token ({len(ra)})", cfg):
+            continue
+        rb, rt = ra[0]
+        re_name = None
+        re_name = _regex_static(ft, rt["args"][0])
+        cl = None
+        for r in provenance(ft, rt["args"][2], through=None):
+            if r[0] == "agg" and r[1].startswith("closure "):
+                cl = prog.fn("stylua_lib", r[1][8:])
+        if not rep.anchor(re_name in pats, f"tokenising regex of format_token ({re_name}, constants {sorted(pats)})", cfg):
+            continue
         # --- RE: \\?(["'])|\\([\S\s])
-        pat, pf = pats["RE"]
+        pat, pf = pats[re_name]
         ok_re = False
         why = ""
         try:
@@ -237,14 +314,14 @@ def rule_regex(ctx, prop):
                           f"groups 1 and 2 ({why}): escapes are not tokenised as the replacement closure assumes",
                           pf.loc(), cfg)
         # --- replacement closure table
-        cl = prog.fn("stylua_lib", "formatters::general::format_token::{closure#0}")
-        if rep.anchor(cl is not None, "replacement closure of format_token", cfg):
+        if rep.anchor(cl is not None, "replacement closure of format_token (third argument of replace_all)", cfg):
             try:
-                res = Enumerator(cl).run()
+                res = Enumerator(cl, summaries=False).run()
             except TooManyPaths:
                 res = []
                 rep.anchor(False, "replacement closure: too many paths", cfg)
             rows = {}
+            preds = set()
             for st in res:
                 # which capture group decided the branch
                 quote_some = None
@@ -266,7 +343,11 @@ def rule_regex(ctx, prop):
                         if lit:
                             eqs[lit[0]] = dec
                     elif c.endswith("Regex::is_match"):
-                        eqs["<unnecessary>"] = dec
+                        eqs["<pred>"] = dec
+                        preds.add(("regex", _regex_static(cl, t["args"][0])))
+                    elif prog.fn("stylua_lib", c) is not None and prog.fn("stylua_lib", c).locals[0] == "bool":
+                        eqs["<pred>"] = dec
+                        preds.add(("helper", c))
                 v0 = st.vals.get(0)
                 out = None
                 if v0 and v0[0] == "callres":
@@ -312,19 +393,40 @@ def rule_regex(ctx, prop):
                     rep.violation(f"{cl.key} quote-replacement {quote} [{label}] -> {sorted(map(str, got))}",
                                   f"a {quote} inside a string whose output quote is {label} is rewritten to "
                                   f"{sorted(map(str, got))}, expected {sorted(want)}", cl.loc(), cfg)
-            # generic escapes
-            un = {out for (qs, eqs, qt), out in rows.items() if qs is False and dict(eqs).get("<unnecessary>") is True}
-            ne = {out for (qs, eqs, qt), out in rows.items() if qs is False and dict(eqs).get("<unnecessary>") is False}
-            ok = un == {("text",)} and ne == {("escaped-text", True)}
-            rep.inst(f"{cl.key} other escapes: unnecessary -> char, necessary -> \\char", {"unnecessary": sorted(map(str, un)),
-                                                                                           "necessary": sorted(map(str, ne))}, cfg, ok=ok)
-            if not ok:
-                rep.violation(f"{cl.key} escape-replacement unnecessary={sorted(map(str, un))} necessary={sorted(map(str, ne))}",
-                              "a backslash escape that is necessary is not reproduced as backslash + character (or an "
-                              "unnecessary one is not reduced to the character itself)", cl.loc(), cfg)
+            # generic escapes: the closure asks one predicate about the escaped character (a regex test or a local
+            # char predicate); every character of the escape alphabet must land in the branch that keeps the backslash
+            pred = None
+            if rep.anchor(len(preds) == 1, f"one escape predicate in the replacement closure ({sorted(preds)})", cfg):
+                pred = _escape_predicate(rep, prog, pats, list(preds)[0], cfg)
+            if pred is not None:
+                label, table, loc = pred
+                branch = {d: {out for (qs, eqs, qt), out in rows.items() if qs is False and dict(eqs).get("<pred>") is d}
+                          for d in (True, False)}
+                rep.inst(f"{cl.key} escape branches of {label}", {str(k): sorted(map(str, v)) for k, v in branch.items()}, cfg)
+                bad = []
+                for ch in sorted(ESCAPE_ALPHABET):
+                    outs = set()
+                    for d in table(ch):
+                        outs |= branch[d] or {None}
+                    if outs != {("escaped-text", True)}:
+                        bad.append(ch)
+                rep.inst(f"{cl.key} every escape of the alphabet keeps its backslash", {"predicate": label,
+                         "alphabet": "".join(sorted(ESCAPE_ALPHABET)).encode("unicode_escape").decode()}, cfg, ok=not bad)
+                for ch in bad:
+                    e = ch.encode("unicode_escape").decode()
+                    rep.violation(f"stylua_lib::formatters::general::format_token escape-dropped={e}",
+                                  f"the escape `\\{e}` is meaningful in a supported dialect but {label} sends it to a branch "
+                                  f"that does not reproduce backslash + character: the string denotes a different value",
+                                  loc, cfg)
+                others = branch[True] | branch[False]
+                ok = others <= {("text",), ("escaped-text", True)}
+                rep.inst(f"{cl.key} other escapes become the character or backslash + character", None, cfg, ok=ok)
+                if not ok:
+                    rep.violation(f"{cl.key} escape-replacement outputs={sorted(map(str, others))}",
+                                  "an escape is replaced by something other than the character itself or backslash + "
+                                  "character", cl.loc(), cfg)
         # --- numbers: "0" prefix only under starts_with('.'), "-0" only under starts_with("-.")
-        ft = prog.fn("stylua_lib", "formatters::general::format_token")
-        if rep.anchor(ft is not None, "format_token", cfg):
+        if True:
             ti = [i for i in range(1, ft.argc + 1) if ft.locals[i] == "&full_moon::tokenizer::Token"]
             tkey = None
             # the switched TokenType comes from token.token_type()
@@ -371,6 +473,18 @@ def rule_regex(ctx, prop):
                                   f"a numeric literal is prefixed with {pre} when starts_with('.') is {dot} and "
                                   f"starts_with('-.') is {mdot}: the number denotes a different value", ft.loc(), cfg)
             rep.floor("number rewriting rows", len(seen), 3, cfg)
+            # the text of the rebuilt Number token is made from the original text and the constants above only
+            for b, si_, s_ in ft.stmts():
+                if s_["k"] == "assign" and s_["rv"]["k"] == "agg" and s_["rv"].get("variant") == "Number":
+                    calls = prov_calls(provenance(ft, s_["rv"]["ops"][0]))
+                    unknown = sorted({c.split("::")[-1] for c in calls if not NUMBER_CALLS.search(c)})
+                    rep.inst(f"{ft.key} Number text is built from the original text and constant prefixes", {"calls": sorted(calls)}, cfg,
+                             ok=not unknown)
+                    if unknown:
+                        rep.violation(f"{ft.key} number-rewrite unrecognised-construction calls={unknown}",
+                                      f"the text of a numeric literal is built through {unknown}: not the original text with "
+                                      f"a constant `0` / `-0` prefix under a starts_with test; the digits that reach the "
+                                      f"output cannot be established (fail closed)", ft.loc(s_["sp"]), cfg)
             # --- string literal aggregates: depth preserved, bracket strings keep Brackets
             adt = prog.adt("full_moon::tokenizer::TokenType", "stylua_lib")
             names = [x["name"] for v in adt["variants"] if v["name"] == "StringLiteral" for x in v["fields"]]
